@@ -268,8 +268,8 @@ func (c *Ctx) locks() *lockAnalysis {
 		syncParam: map[*ssa.Function]map[int]bool{}, consumed: map[*ssa.Function]string{}, roots: map[*ssa.Function]string{},
 		accessN: map[string]int{}}
 	c.lockA = la
-	for i := range guardSpecs {
-		gs := &guardSpecs[i]
+	for i := range c.GuardSpecs {
+		gs := &c.GuardSpecs[i]
 		nt := c.namedType(gs.Pkg, gs.Type)
 		if nt == nil {
 			c.add(&Obligation{Rule: "E1.anchor", Func: "@/" + gs.Pkg + "." + gs.Type, Construct: "anchor", Status: Undecided,
@@ -500,7 +500,7 @@ func (la *lockAnalysis) implsOf(m *types.Func) []*ssa.Function {
 		return nil
 	}
 	for _, pkg := range la.c.Prog.AllPackages() {
-		if !strings.HasPrefix(pkg.Pkg.Path(), modPath) {
+		if !strings.HasPrefix(pkg.Pkg.Path(), la.c.Mod) {
 			continue
 		}
 		for _, mem := range pkg.Members {
